@@ -2,21 +2,21 @@
 (***************************************************************************)
 (* TLAPS: the safety properties of Registry.tla hold for ANY number of     *)
 (* processes, keys, values and calls (TLC checks them for 3 processes x 2  *)
-(* calls).  IndInv is inductive and implies MutualExclusion, MapIsSpec and *)
-(* LookupSeesSpec.                                                         *)
+(* calls).  IndInv is inductive and implies MutualExclusion, MapIsSpec,    *)
+(* LookupSeesSpec and RegisterTestAndSet.                                                         *)
 (***************************************************************************)
 EXTENDS Registry, TLAPS
 
 ASSUME ProcsAreNotZero == 0 \notin Procs
 
-Ops == {"none", "add", "lookup"}
+Ops == {"none", "add", "register", "lookup"}
 PCs == {"idle", "invoked", "locked", "accessed", "released"}
 
 TypeOK ==
     /\ readers \subseteq Procs
     /\ writer \in Procs \cup {0}
     /\ pc \in [Procs -> PCs]
-    /\ call \in [Procs -> [op : Ops, key : Keys \cup {0}, val : Vals \cup {0}, res : Vals \cup {0}]]
+    /\ call \in [Procs -> [op : Ops, key : Keys \cup {0}, val : Vals \cup {0}, res : Vals \cup {0, 1}]]
     /\ map \in [Keys -> Vals \cup {0}] /\ spec \in [Keys -> Vals \cup {0}]
 
 Holding(p) == pc[p] \in {"locked", "accessed"}
@@ -24,53 +24,56 @@ Holding(p) == pc[p] \in {"locked", "accessed"}
 IndInv ==
     /\ TypeOK
     /\ map = spec
-    /\ \A p \in Procs : pc[p] # "idle" => call[p].op \in {"add", "lookup"} /\ call[p].key \in Keys
-    /\ writer # 0 => readers = {} /\ Holding(writer) /\ call[writer].op = "add"
-    /\ \A p \in Procs : (Holding(p) /\ call[p].op = "add") => writer = p
+    /\ \A p \in Procs : pc[p] # "idle" => call[p].op \in {"add", "register", "lookup"} /\ call[p].key \in Keys
+    /\ writer # 0 => readers = {} /\ Holding(writer) /\ IsWrite(call[writer].op)
+    /\ \A p \in Procs : (Holding(p) /\ IsWrite(call[p].op)) => writer = p
     /\ \A p \in Procs : p \in readers <=> (Holding(p) /\ call[p].op = "lookup")
     /\ \A p \in Procs : (pc[p] = "accessed" /\ call[p].op = "lookup") => call[p].res = spec[call[p].key]
+    /\ \A p \in Procs : (pc[p] = "accessed" /\ call[p].op = "register" /\ call[p].res = 1) => spec[call[p].key] = call[p].val
 
 THEOREM InitInd == Init => IndInv
-  BY ProcsAreNotZero DEF Init, IndInv, TypeOK, Holding, NoCall, NoVal, PCs, Ops
+  BY ProcsAreNotZero DEF Init, IndInv, TypeOK, Holding, IsWrite, NoCall, NoVal, PCs, Ops
 
 THEOREM NextInd == IndInv /\ [Next]_vars => IndInv'
 <1> SUFFICES ASSUME IndInv, [Next]_vars PROVE IndInv' OBVIOUS
 <1> USE ProcsAreNotZero
-<1>0. CASE UNCHANGED vars BY <1>0 DEF IndInv, TypeOK, Holding, vars
+<1>0. CASE UNCHANGED vars BY <1>0 DEF IndInv, TypeOK, Holding, IsWrite, vars
 <1>1. ASSUME NEW p \in Procs, NEW k \in Keys, NEW v \in Vals, Invoke(p, "add", k, v) PROVE IndInv'
-  BY <1>1 DEF IndInv, TypeOK, Holding, Invoke, PCs, Ops
+  BY <1>1 DEF IndInv, TypeOK, Holding, IsWrite, Invoke, PCs, Ops
+<1>1b. ASSUME NEW p \in Procs, NEW k \in Keys, NEW v \in Vals, Invoke(p, "register", k, v) PROVE IndInv'
+  BY <1>1b DEF IndInv, TypeOK, Holding, IsWrite, Invoke, PCs, Ops
 <1>2. ASSUME NEW p \in Procs, NEW k \in Keys, Invoke(p, "lookup", k, 0) PROVE IndInv'
-  BY <1>2 DEF IndInv, TypeOK, Holding, Invoke, PCs, Ops
+  BY <1>2 DEF IndInv, TypeOK, Holding, IsWrite, Invoke, PCs, Ops
 <1>3. ASSUME NEW p \in Procs, Acquire(p) PROVE IndInv'
-  <2>1. CASE call[p].op = "add"
-    BY <1>3, <2>1 DEF IndInv, TypeOK, Holding, Acquire, PCs, Ops
-  <2>2. CASE call[p].op # "add"
-    BY <1>3, <2>2 DEF IndInv, TypeOK, Holding, Acquire, PCs, Ops
+  <2>1. CASE IsWrite(call[p].op)
+    BY <1>3, <2>1 DEF IndInv, TypeOK, Holding, IsWrite, Acquire, PCs, Ops
+  <2>2. CASE ~IsWrite(call[p].op)
+    BY <1>3, <2>2 DEF IndInv, TypeOK, Holding, IsWrite, Acquire, PCs, Ops
   <2> QED BY <2>1, <2>2
 <1>4. ASSUME NEW p \in Procs, Access(p) PROVE IndInv'
-  <2>1. CASE call[p].op = "add"
-    BY <1>4, <2>1 DEF IndInv, TypeOK, Holding, Access, PCs, Ops
-  <2>2. CASE call[p].op # "add"
-    BY <1>4, <2>2 DEF IndInv, TypeOK, Holding, Access, PCs, Ops
+  <2>1. CASE IsWrite(call[p].op)
+    BY <1>4, <2>1 DEF IndInv, TypeOK, Holding, IsWrite, Access, PCs, Ops
+  <2>2. CASE ~IsWrite(call[p].op)
+    BY <1>4, <2>2 DEF IndInv, TypeOK, Holding, IsWrite, Access, PCs, Ops
   <2> QED BY <2>1, <2>2
 <1>5. ASSUME NEW p \in Procs, Release(p) PROVE IndInv'
-  <2>1. CASE call[p].op = "add"
-    BY <1>5, <2>1 DEF IndInv, TypeOK, Holding, Release, PCs, Ops
-  <2>2. CASE call[p].op # "add"
+  <2>1. CASE IsWrite(call[p].op)
+    BY <1>5, <2>1 DEF IndInv, TypeOK, Holding, IsWrite, Release, PCs, Ops
+  <2>2. CASE ~IsWrite(call[p].op)
     <3>1. pc[p] = "accessed" /\ call[p].op = "lookup" /\ p \in readers /\ writer = 0
-      BY <1>5, <2>2 DEF IndInv, TypeOK, Holding, Release, PCs, Ops
+      BY <1>5, <2>2 DEF IndInv, TypeOK, Holding, IsWrite, Release, PCs, Ops
     <3>2. readers' = readers \ {p} /\ writer' = writer /\ pc' = [pc EXCEPT ![p] = "released"]
           /\ UNCHANGED <<map, call, ncalls, spec>>
       BY <1>5, <2>2 DEF Release
-    <3> QED BY <3>1, <3>2 DEF IndInv, TypeOK, Holding, PCs, Ops
+    <3> QED BY <3>1, <3>2 DEF IndInv, TypeOK, Holding, IsWrite, PCs, Ops
   <2> QED BY <2>1, <2>2
 <1>6. ASSUME NEW p \in Procs, Return(p) PROVE IndInv'
-  BY <1>6 DEF IndInv, TypeOK, Holding, Return, PCs, NoCall, Ops
-<1> QED BY <1>0, <1>1, <1>2, <1>3, <1>4, <1>5, <1>6 DEF Next
+  BY <1>6 DEF IndInv, TypeOK, Holding, IsWrite, Return, PCs, NoCall, Ops
+<1> QED BY <1>0, <1>1, <1>1b, <1>2, <1>3, <1>4, <1>5, <1>6 DEF Next
 
-THEOREM IndImplies == IndInv => MutualExclusion /\ MapIsSpec /\ LookupSeesSpec
-  BY ProcsAreNotZero DEF IndInv, TypeOK, Holding, MutualExclusion, MapIsSpec, LookupSeesSpec
+THEOREM IndImplies == IndInv => MutualExclusion /\ MapIsSpec /\ LookupSeesSpec /\ RegisterTestAndSet
+  BY ProcsAreNotZero DEF IndInv, TypeOK, Holding, IsWrite, MutualExclusion, MapIsSpec, LookupSeesSpec, RegisterTestAndSet
 
-THEOREM RegistrySafety == Init /\ [][Next]_vars => [](MutualExclusion /\ MapIsSpec /\ LookupSeesSpec)
+THEOREM RegistrySafety == Init /\ [][Next]_vars => [](MutualExclusion /\ MapIsSpec /\ LookupSeesSpec /\ RegisterTestAndSet)
   BY InitInd, NextInd, IndImplies, PTL
 =============================================================================
